@@ -562,7 +562,9 @@ func (f *formatStore) storeUsingNonDeterministicKey(key string, value []byte, ta
 		return fmt.Errorf("unexpectedly found multiple results matching query. Only one is expected")
 	}
 
-	_, formattedValue, formattedTags, err := f.formatter.Format(foundKey, value, tags...)
+	// The data is formatted under the caller's key (a formatter may embed the key in the formatted value in order to
+	// return it from Deformat) and stored under the formatted key this key already has.
+	_, formattedValue, formattedTags, err := f.formatter.Format(key, value, tags...)
 	if err != nil {
 		return fmt.Errorf(failFormatData, err)
 	}
@@ -990,8 +992,10 @@ func (f *formatStore) createFormattedPutOperationUsingNewFormattedKey(resolvedKe
 
 func (f *formatStore) createFormattedPutOperationUsingExistingFormattedKey(resolvedKeys map[string]string,
 	formattedKey string, operation spi.Operation, tagsToFormat []spi.Tag) (spi.Operation, error) {
+	// formatted under the caller's key, stored under the formatted key this key already has (see
+	// storeUsingNonDeterministicKey).
 	_, formattedValue, formattedTags, err :=
-		f.formatter.Format(formattedKey, operation.Value, tagsToFormat...)
+		f.formatter.Format(operation.Key, operation.Value, tagsToFormat...)
 	if err != nil {
 		return spi.Operation{}, fmt.Errorf(failFormatData, err)
 	}
